@@ -2,6 +2,7 @@ import CookModel.Lemmas.Collector
 import CookModel.Lemmas.CollectorFold
 import CookModel.Lemmas.ClosingStream
 import CookModel.Lemmas.CollectorOrder
+import CookModel.Lemmas.CollectorRefIff
 /-
   C06  The recipe model is referentially consistent.
 
@@ -250,5 +251,66 @@ example : recipeItems (α := Rat) { sections := [⟨none, [.step ⟨[.ingredient
 example : IncBelow 3 [0, 2] := by unfold IncBelow; decide
 example : ¬ IncBelow 3 [1, 1] := by unfold IncBelow; decide
 example : ¬ IncBelow 3 [2, 0] := by unfold IncBelow; decide
+
+/-! ### reference exactly when REF, for results without errors (Lemmas/CollectorRefIff.lean) -/
+
+/-- the fold never removes a diagnostic: whatever was reported stays reported (so an error pushed
+    while a component is analysed is still in the final report) -/
+theorem C06_diagnostics_only_grow (env : Env) (input : Str) (ev : Ev α) (s : Col α) :
+    ∀ d ∈ s.diags.toList, d ∈ (processEvent env input ev s).2.diags.toList :=
+  ((processEvent_fr env input ev).out s).1
+
+/-- every event keeps: an error has been reported, or every ingredient and cookware item carrying the
+    REF modifier is a reference.  (`resolve_reference` returns modifiers with REF but no target only
+    together with `reference-not-found` or the `+&` conflict; an intermediate reference that does not
+    resolve reports its error.) -/
+theorem C06_ref_invariant_step (env : Env) (input : Str) (ev : Ev α) (s : Col α) (hi : Inv env s) (hr : RefInv s)
+    (hev : EvOK ev) : RefInv (processEvent env input ev s).2 := processEvent_refInv env input ev s hi hr hev
+
+/-- for ANY list of `EvOK` events whose report has no error: a component is a reference exactly when
+    it carries the REF modifier -/
+theorem C06_reference_iff_ref_modifier_of_events (env : Env) (input : Str) (evs : List (Ev α)) (c : Col α)
+    (hev : ∀ ev ∈ evs, EvOK ev) (h : (parseEventsLoop env input evs {}).output = some c)
+    (hno : ∀ d ∈ (parseEventsLoop env input evs {}).diags.toList, d.sev ≠ Sev.error) :
+    (∀ (k : Nat) (ig : Ingredient (ScalableValue α)), c.ingredients[k]? = some ig →
+      (ig.relation.relation.isReference = true ↔ ig.modifiers.contains Modifiers.REF = true)) ∧
+    (∀ (k : Nat) (cw : Cookware (ScalableValue α)), c.cookware[k]? = some cw →
+      (cw.relation.isReference = true ↔ cw.modifiers.contains Modifiers.REF = true)) := by
+  have hf := C06_invariant_output env input evs c hev h
+  rcases parseEventsLoop_refInv env input evs {} c (Inv.init env) RefInv.init hev h with ⟨d, hd, hs⟩ | ⟨hI, hC⟩
+  · exact absurd hs (hno d hd)
+  · exact ⟨fun k ig hk => ⟨hf.itab.refREF k ig hk, hI k ig hk⟩, fun k cw hk => ⟨hf.ctab.refREF k cw hk, hC k cw hk⟩⟩
+
+/-- **Reference exactly when REF.**  When `parse` returns a recipe and its report contains no error
+    (warnings allowed): an ingredient's relation is a reference (regular or intermediate) if and only
+    if the ingredient carries the REF modifier, and a regular reference then points to an EARLIER
+    ingredient that is a definition without the REF modifier; the same for cookware. -/
+theorem C06_reference_iff_ref_modifier (env : Env) (input : Str) (c : Col α)
+    (h : (parseRecipe (α := α) env input).output = some c)
+    (hno : ∀ d ∈ (parseRecipe (α := α) env input).diags.toList, d.sev ≠ Sev.error) :
+    (∀ (k : Nat) (ig : Ingredient (ScalableValue α)), c.ingredients[k]? = some ig →
+      (ig.relation.relation.isReference = true ↔ ig.modifiers.contains Modifiers.REF = true) ∧
+      ∀ t, ig.relation = ⟨.reference t, some .ingredient⟩ →
+        t < k ∧ ∃ d, c.ingredients[t]? = some d ∧ d.modifiers.contains Modifiers.REF = false ∧
+          ∃ rf b, d.relation.relation = .definition rf b) ∧
+    (∀ (k : Nat) (cw : Cookware (ScalableValue α)), c.cookware[k]? = some cw →
+      (cw.relation.isReference = true ↔ cw.modifiers.contains Modifiers.REF = true) ∧
+      ∀ t, cw.relation = .reference t →
+        t < k ∧ ∃ d, c.cookware[t]? = some d ∧ d.modifiers.contains Modifiers.REF = false ∧
+          ∃ rf b, d.relation = .definition rf b) := by
+  have hev := pullEvents_evOK (α := α) env.cs env.ext input
+  have hiff := C06_reference_iff_ref_modifier_of_events env input _ c hev h hno
+  refine ⟨fun k ig hk => ⟨hiff.1 k ig hk, fun t ht => ?_⟩, fun k cw hk => ⟨hiff.2 k cw hk, fun t ht => ?_⟩⟩
+  · obtain ⟨h1, d, h2, _, h3, rf, b, h4, _⟩ := C06_reference_backlinks env input _ c hev h k ig hk t ht
+    exact ⟨h1, d, h2, h3, rf, b, h4⟩
+  · obtain ⟨h1, d, h2, _, h3, rf, b, h4, _⟩ := C06_cookware_reference_backlinks env input _ c hev h k cw hk t ht
+    exact ⟨h1, d, h2, h3, rf, b, h4⟩
+
+/-! non-vacuity: a report with only a warning has no error; one with an error has -/
+example : ¬ HasErr #[⟨.warning, .analysis, "redundant-ref", []⟩] := by
+  rintro ⟨d, hd, hs⟩
+  simp at hd; subst hd; cases hs
+example : HasErr #[⟨.warning, .analysis, "redundant-ref", []⟩, ⟨.error, .analysis, "reference-not-found", [⟨0, 1⟩]⟩] :=
+  ⟨⟨.error, .analysis, "reference-not-found", [⟨0, 1⟩]⟩, by simp, rfl⟩
 
 end Cook
